@@ -117,7 +117,7 @@ func runC18(run *Run, seed int64, l c18List, carriers []string, reclaim time.Dur
 	}
 	oracle := newCidrOracle(l.CIDRs)
 	rig, err := NewRig(RigOpts{Seed: seed, Spec: NodeSpec{Name: "V", IP: l.VIP, Mutate: func(cf *memberlist.Config) {
-		cf.ProbeInterval = time.Hour
+		cf.ProbeInterval = noProbe
 		cf.PushPullInterval = 0
 		cf.CIDRsAllowed = nets
 		cf.DeadNodeReclaimTime = reclaim
